@@ -15,11 +15,7 @@ func vxH_C01_history() {
 	steps, nops, kl, vl := 3, 1, 1, 1
 	co := CollectionOptions{}
 	if vxTier() == 1 {
-		steps, nops = 3, 2
 		co.DeferredSort = vxChoose(2) == 1
-		if vxChoose(2) == 1 {
-			co.MinMergePercentage = 1000 // never merge unless asked
-		}
 	}
 	ci, err := NewCollection(co)
 	vxAssert("new-ok", err == nil)
